@@ -56,14 +56,15 @@ def run(ctx):
         hists += fp.gen_histories(ctx, "perm", 4, selmod=12)
         rnd, nshards = 1500, 4
     else:
-        hists += fp.gen_histories(ctx, "seq", 4)
+        hists += fp.gen_histories(ctx, "seq", 4, menun=17)
+        hists += fp.gen_histories(ctx, "seq", 3)
         # -simulate checks all 12 successors of every step: each simulated trace yields 12 histories of 10 calls
         # (a common 9-call prefix, every last call), so 850 traces give ~10^4 histories
         hists += fp.gen_histories(ctx, "sim", 10, simulate=850)
         rnd, nshards = 2500, 8
     # the model's expectation travels with every history; the harness needs only the ids
     for h in hists:
-        if len(h["calls"]) != len(h["exp"]) or any(menu["descs"][c - 1]["exp"] != e for c, e in zip(h["calls"], h["exp"])):
+        if len(h["calls"]) != len(h["exp"]) or any(menu["descs"][c - 1]["exp"] != e for c, e in zip(h["calls"], h["exp"])):   # (epoch 0 table)
             raise MachineryError("history expectation and descriptor table disagree")
     import random
     random.Random(ctx.seed).shuffle(hists)
